@@ -526,7 +526,8 @@ func (b *BoxFields) RoundedContentBox() RoundedBox {
 
 // Return whether this box is floated.
 func (b *BoxFields) IsFloated() bool {
-	return b.Style.GetFloat() != "none"
+	float := b.Style.GetFloat()
+	return float == "left" || float == "right"
 }
 
 // Return whether this box is a footnote.
